@@ -210,6 +210,32 @@ def c08(rng, qk):
             s.op("B go")
         s.log(t, "L0", pad=cap + 8)
         s.join(t)
+    if bounded and rng.random() < 0.3:
+        # drops racing with the REPORTS of the backend: it parks inside the error notifier (user code) each time it reports dropped
+        # messages; a thread drops between the idle branch's report and the context clean-up, and once more (then exits) while the
+        # backend is inside whatever report comes next - a counter must be reported right before its context goes, not earlier
+        for v in sorted(s.alive):
+            s.op(f"T {v} go")
+        s.op("B drain")
+        u, t = f"t{len(s.threads)}", f"t{len(s.threads) + 1}"
+        s.start(u)
+        s.start(t)
+        s.log(u, "L0", pad=3)
+        s.log(t, "L0", pad=2)
+        s.op("B drain")
+        s.join(u)                                   # an invalidated context exists: the clean-up will run
+        for _ in range(rng.randint(1, 2)):
+            s.log(t, "L0", pad=cap + 8)             # dropped
+        s.op("notifypark on")
+        s.op("B pollf")
+        s.op("B until:NOTIFY")                      # the idle branch reports what t dropped so far
+        s.log(t, "L0", pad=cap + 9)                 # dropped
+        s.op("B go")                                # leave the notifier ...
+        s.op("B until:NOTIFY")                      # ... (parks again only if another report follows within this poll)
+        s.log(t, "L0", pad=cap + 10)                # dropped
+        s.join(t)
+        s.op("B until:-")
+        s.op("notifypark off")
     s.finish(final=True)
     return s.text(), s.grace
 
